@@ -32,6 +32,10 @@ func genRealtime(g *gen, prop string, budget int, emit func(string)) bool {
 			"rrt 5 3 6 0 12 : busy@1:5:1 ; busy@4:50:1",
 			"rrt 10 2 5 0 30 : busy@2:50:0 ; busy@9:50:3 ; busy@14:20:3",
 			"rrt 5 4 5 0 20 : busy@10:50:1",
+			// senders that stay idle for longer than the pause between their Sends
+			"rrt 10 2 8 17000 :",
+			"rrt 20 3 6 50000 :",
+			"rrt 5 4 8 8000 : busy@30:20:1",
 		}
 		n := 0
 		for _, s := range fixed {
@@ -51,7 +55,7 @@ func genRealtime(g *gen, prop string, budget int, emit func(string)) bool {
 			if burst < 1 {
 				burst = 1
 			}
-			gap := g.pick(0, 0, 100, pause*500)
+			gap := g.pick(0, 0, 100, pause*500, pause*1700, pause*2600)
 			span := senders * burst * pause
 			var bs []string
 			at := 0
@@ -293,6 +297,9 @@ func (m *mon) crt(script, trace string) int {
 	}
 	if r := strings.SplitN(kv["returned"], "/", 2); len(r) != 2 || r[0] != r[1] {
 		m.fail("close-did-not-return", "Close calls returned within 3 s: "+kv["returned"])
+	}
+	if kv["early"] != "0" {
+		m.fail("close-returned-before-teardown", kv["early"]+" Close calls returned while Inbound was still open (another caller was still tearing the tunnel down)")
 	}
 	if kv["inbound"] != "closed" {
 		m.fail("inbound-not-closed", "Inbound still open 1 s after every Close returned")
